@@ -35,7 +35,7 @@ MANIFEST = {
             'seq_sends_unique evaluated in Coq on logged call trees with the real hop values, no repeated label on any '
             'connection (frame parser), observed counter ranges of all contexts of a party pairwise disjoint. '
             'Trusted: Coq kernel + vm_compute; simulator (lib.sim) driving the real MessageExchanger. Programs avoid `%` '
-            '(their own property is C08; F-C08-1/2 are fixed in /repo). Sessions also run with --no-barrier and with one lagging party while un-awaited coroutine chains are still running at shutdown. Per-protocol at_most_one_send_per_peer belongs to C07 (routing); here observed only.',
+            '(their own property is C08; F-C08-1/2 are fixed in /repo). Handshakes whose preamble arrives coalesced with (or cut 0/1/2 bytes into) the first message of the client, followed by a request/response program, are run for m=2,3,4 with PRSS on and off. Sessions also run with --no-barrier and with one lagging party while un-awaited coroutine chains are still running at shutdown. Per-protocol at_most_one_send_per_peer belongs to C07 (routing); here observed only.',
     'technique': 'Coq proof of the buffer machine + independent frame parser and buffer replay on simulator runs',
 }
 
@@ -243,6 +243,8 @@ def run(ctx):
                     stats['sessions'] += 1
                 finally:
                     sess.close()
+    # connection preamble coalesced with the first labelled message(s), request/response right after start
+    base.coalesced_handshake_stream(ctx, stats, full=True)
     # the real MessageExchanger driven directly with short random op sequences over a tiny label space (repeated labels,
     # receive-before-deliver, double receive, double deliver -> exception), against the model including its error flag
     for real_ops, real_state, real_exc in drive_exchanger(rng, ctx.n(150, 600)):
